@@ -176,7 +176,7 @@ def run_real(binary, argv, root, stdout_kind, stdin_bytes):
             p = subprocess.Popen([binary] + argv, stdin=subprocess.PIPE, stdout=out_f, stderr=subprocess.PIPE, cwd=cwd)
         ts = feed_fifos(argv, cwd, p)
         try:
-            out, err = p.communicate(stdin_bytes, timeout=30)
+            out, err = p.communicate(stdin_bytes, timeout=90)
             to = False
         except subprocess.TimeoutExpired:
             p.kill()
@@ -228,16 +228,16 @@ def run_real(binary, argv, root, stdout_kind, stdin_bytes):
         path = os.path.join(root, "stdin-content.bin")
         with open(path, "wb") as f:
             f.write(stdin_bytes)
-        return cli.run_xt(binary, argv, stdin_path=path, cwd=cwd, timeout=30)
+        return cli.run_xt(binary, argv, stdin_path=path, cwd=cwd, timeout=90)
     if stdout_kind == "file":
         path = os.path.join(root, "out-%d-%d.bin" % (os.getpid(), id(argv) % 100000))
         with open(path, "wb") as f:
-            r = cli.run_xt(binary, argv, stdin_bytes=stdin_bytes, cwd=cwd, stdout=f, timeout=30)
+            r = cli.run_xt(binary, argv, stdin_bytes=stdin_bytes, cwd=cwd, stdout=f, timeout=90)
         with open(path, "rb") as f:
             r["stdout"] = f.read()
         os.remove(path)
         return r
-    return cli.run_xt(binary, argv, stdin_bytes=stdin_bytes, cwd=cwd, timeout=30)
+    return cli.run_xt(binary, argv, stdin_bytes=stdin_bytes, cwd=cwd, timeout=90)
 
 
 def expected_stdout(pred, table):
@@ -351,7 +351,7 @@ def run_closed(binary, argv, root, stdin_bytes, k):
             got += d
         os.close(r)
     try:
-        p.wait(timeout=30)
+        p.wait(timeout=90)
         to = False
     except subprocess.TimeoutExpired:
         p.kill()
@@ -366,6 +366,6 @@ def run_closed(binary, argv, root, stdin_bytes, k):
 def run_full(binary, argv, root, stdin_bytes):
     cwd = os.path.join(root, "run")
     with open("/dev/full", "wb") as f:
-        r = cli.run_xt(binary, argv, stdin_bytes=stdin_bytes, cwd=cwd, stdout=f, timeout=30)
+        r = cli.run_xt(binary, argv, stdin_bytes=stdin_bytes, cwd=cwd, stdout=f, timeout=90)
     r["stdout"] = b""
     return r
